@@ -1,17 +1,18 @@
 #!/bin/bash
-# usage: run_mutant.sh <patch> <check> [<check>...]   - applies the patch to /repo, runs the quick checks, reverts.
+# usage: run_mutant.sh <patch> <check> [<check>...]
+# Applies the patch in a scratch worktree of /repo (outside /repo and /verif), runs the quick checks
+# against that worktree (VERIF_REPO), removes the worktree. /repo itself is not touched.
 set -u
-P=$1; shift
-cd /repo
-if ! git apply --check $P 2>/dev/null; then
-  if ! git apply --3way $P >/dev/null 2>&1; then echo "MUTANT $P does-not-apply"; git checkout -- . ; git reset -q; exit 2; fi
-  git reset -q
-else
-  git apply $P
+P=$(readlink -f $1); shift
+WT=$(mktemp -d /tmp/rm.XXXXXX); rmdir $WT
+git -C /repo worktree add -q --detach $WT HEAD || { echo "MUTANT $P worktree-failed"; exit 2; }
+trap 'git -C /repo worktree remove --force $WT >/dev/null 2>&1' EXIT
+if ! git -C $WT apply $P 2>/dev/null; then
+  if ! git -C $WT apply --3way $P >/dev/null 2>&1; then echo "MUTANT $P does-not-apply"; exit 2; fi
 fi
 for c in "$@"; do
-  cd /verif && ./check $c > /tmp/mutrun.$$.log 2>&1; rc=$?
-  echo "MUTANT $(basename $(dirname $P))/$(basename $P) check=$c exit=$rc $(grep -c '^VIOLATION' /tmp/mutrun.$$.log) violations; first: $(grep -m1 'signature:' /tmp/mutrun.$$.log)"
+  L=/tmp/mutrun.$$.$c.log
+  (cd /verif && VERIF_REPO=$WT ./check $c ${TIER:+--tier $TIER} > $L 2>&1); rc=$?
+  echo "MUTANT $(basename $(dirname $P))/$(basename $P) check=$c exit=$rc $(grep -c '^VIOLATION' $L) violations; first: $(grep -m1 'signature:' $L)"
+  rm -f $L
 done
-rm -f /tmp/mutrun.$$.log
-git -C /repo checkout -- . ; git -C /repo status --short
